@@ -213,6 +213,8 @@ pub struct DecObs {
 
 pub trait DynEnc {
     fn add(&mut self, shard: &[u8]) -> Result<(), Error>;
+    /// the shard as any `AsRef<[u8]>` value (see `Shifty`)
+    fn add_any(&mut self, shard: &dyn AsRef<[u8]>) -> Result<(), Error>;
     fn encode_obs(&mut self, probes: &[usize]) -> Result<EncObs, Error>;
     /// encode and read every result through the accessors without copying
     /// (no heap allocation by the harness): (digest, address of recovery(0))
@@ -224,6 +226,8 @@ pub trait DynEnc {
 pub trait DynDec {
     fn add_original(&mut self, index: usize, shard: &[u8]) -> Result<(), Error>;
     fn add_recovery(&mut self, index: usize, shard: &[u8]) -> Result<(), Error>;
+    fn add_original_any(&mut self, index: usize, shard: &dyn AsRef<[u8]>) -> Result<(), Error>;
+    fn add_recovery_any(&mut self, index: usize, shard: &dyn AsRef<[u8]>) -> Result<(), Error>;
     fn decode_obs(&mut self, probes: &[usize]) -> Result<DecObs, Error>;
     /// like `encode_touch`: (digest, address of the first restored shard)
     fn decode_touch(&mut self) -> Result<(u64, usize), Error>;
@@ -310,6 +314,9 @@ impl<E: Engine + 'static, T: RateEncoder<E>> DynEnc for RE<T, E> {
     fn add(&mut self, shard: &[u8]) -> Result<(), Error> {
         self.0.add_original_shard(shard)
     }
+    fn add_any(&mut self, shard: &dyn AsRef<[u8]>) -> Result<(), Error> {
+        self.0.add_original_shard(shard)
+    }
     fn encode_obs(&mut self, probes: &[usize]) -> Result<EncObs, Error> {
         let res = self.0.encode()?;
         Ok(observe_enc(&res, probes))
@@ -331,6 +338,12 @@ impl<E: Engine + 'static, T: RateDecoder<E>> DynDec for RD<T, E> {
         self.0.add_original_shard(index, shard)
     }
     fn add_recovery(&mut self, index: usize, shard: &[u8]) -> Result<(), Error> {
+        self.0.add_recovery_shard(index, shard)
+    }
+    fn add_original_any(&mut self, index: usize, shard: &dyn AsRef<[u8]>) -> Result<(), Error> {
+        self.0.add_original_shard(index, shard)
+    }
+    fn add_recovery_any(&mut self, index: usize, shard: &dyn AsRef<[u8]>) -> Result<(), Error> {
         self.0.add_recovery_shard(index, shard)
     }
     fn decode_obs(&mut self, probes: &[usize]) -> Result<DecObs, Error> {
@@ -356,6 +369,9 @@ impl DynEnc for WE {
     fn add(&mut self, shard: &[u8]) -> Result<(), Error> {
         self.0.add_original_shard(shard)
     }
+    fn add_any(&mut self, shard: &dyn AsRef<[u8]>) -> Result<(), Error> {
+        self.0.add_original_shard(shard)
+    }
     fn encode_obs(&mut self, probes: &[usize]) -> Result<EncObs, Error> {
         let res = self.0.encode()?;
         Ok(observe_enc(&res, probes))
@@ -377,6 +393,12 @@ impl DynDec for WD {
         self.0.add_original_shard(index, shard)
     }
     fn add_recovery(&mut self, index: usize, shard: &[u8]) -> Result<(), Error> {
+        self.0.add_recovery_shard(index, shard)
+    }
+    fn add_original_any(&mut self, index: usize, shard: &dyn AsRef<[u8]>) -> Result<(), Error> {
+        self.0.add_original_shard(index, shard)
+    }
+    fn add_recovery_any(&mut self, index: usize, shard: &dyn AsRef<[u8]>) -> Result<(), Error> {
         self.0.add_recovery_shard(index, shard)
     }
     fn decode_obs(&mut self, probes: &[usize]) -> Result<DecObs, Error> {
@@ -529,14 +551,91 @@ pub fn decode_round(
     recovery: &[Vec<u8>],
     probes: &[usize],
 ) -> Result<DecObs, Error> {
+    decode_round_with(dec, adds, originals, recovery, probes, None)
+}
+
+/// A shard value whose `as_ref()` gives the shard on the first call and
+/// something else (shorter, longer, other bytes) on later calls. Legal Rust;
+/// the library is entitled to look once or several times, but whatever it
+/// does must not let old contents of the working space through.
+pub struct Shifty {
+    views: Vec<Vec<u8>>,
+    calls: std::cell::Cell<usize>,
+}
+
+impl Shifty {
+    pub fn new(shard: &[u8], plan: &mut crate::util::Rng) -> Shifty {
+        let n = shard.len();
+        let later = match plan.below(5) {
+            0 => shard[..n - 2.min(n)].to_vec(),
+            1 => shard[..n / 2].to_vec(),
+            2 => Vec::new(),
+            3 => {
+                let mut v = shard.to_vec();
+                v.extend_from_slice(&[0xEE, 0xEE]);
+                v
+            }
+            _ => vec![0xEE; n],
+        };
+        Shifty { views: vec![shard.to_vec(), later], calls: std::cell::Cell::new(0) }
+    }
+}
+
+impl AsRef<[u8]> for Shifty {
+    fn as_ref(&self) -> &[u8] {
+        let i = self.calls.get();
+        self.calls.set(i + 1);
+        &self.views[i.min(self.views.len() - 1)]
+    }
+}
+
+/// `decode_round`; with `shifty = Some(seed)` about a third of the shards are
+/// passed as `Shifty` values (the same ones for the same seed).
+pub fn decode_round_with(
+    dec: &mut dyn DynDec,
+    adds: &[(bool, usize)],
+    originals: &[Vec<u8>],
+    recovery: &[Vec<u8>],
+    probes: &[usize],
+    shifty: Option<u64>,
+) -> Result<DecObs, Error> {
+    let mut plan = shifty.map(crate::util::Rng::new);
     for (is_rec, i) in adds {
-        if *is_rec {
-            dec.add_recovery(*i, &recovery[*i])?;
-        } else {
-            dec.add_original(*i, &originals[*i])?;
+        let shard = if *is_rec { &recovery[*i] } else { &originals[*i] };
+        let use_shifty = plan.as_mut().is_some_and(|p| p.chance(1, 3));
+        match plan.as_mut() {
+            Some(p) if use_shifty => {
+                let s = Shifty::new(shard, p);
+                if *is_rec {
+                    dec.add_recovery_any(*i, &s)?;
+                } else {
+                    dec.add_original_any(*i, &s)?;
+                }
+            }
+            _ => {
+                if *is_rec {
+                    dec.add_recovery(*i, shard)?;
+                } else {
+                    dec.add_original(*i, shard)?;
+                }
+            }
         }
     }
     dec.decode_obs(probes)
+}
+
+/// Adds the shards to an encoder, a third of them as `Shifty` values when a
+/// plan seed is given.
+pub fn add_all(enc: &mut dyn DynEnc, shards: &[Vec<u8>], shifty: Option<u64>) -> Result<(), Error> {
+    let mut plan = shifty.map(crate::util::Rng::new);
+    for o in shards {
+        let use_shifty = plan.as_mut().is_some_and(|p| p.chance(1, 3));
+        match plan.as_mut() {
+            Some(p) if use_shifty => enc.add_any(&Shifty::new(o, p))?,
+            _ => enc.add(o)?,
+        }
+    }
+    Ok(())
 }
 
 pub fn err_name(e: &Error) -> &'static str {
